@@ -11,7 +11,9 @@ INFO = {
             "look-ahead or lenient part outside a delimited region) x every value: every strict prefix of the canonical encoding must "
             "raise StreamError; (3) terms x 2 inputs/values x every index k of the k-th stream operation x every applicable deviation "
             "(raise / short read / short write / tell fails / seek fails; pairs of deviations in thorough) for parse_stream and "
-            "build_stream: rigid terms must raise StreamError, recovering terms a ConstructError or return. non-trivial = the "
+            "build_stream: rigid terms must raise StreamError, recovering terms a ConstructError or return; a term without an error-absorbing "
+            "part (Optional, Select, Peek, GreedyRange, Union, Pointer, lazy, require=False) must answer a RAISING operation with StreamError "
+            "even where it is lenient towards short reads; T1 terms (T1+T2 thorough) also inside streaming bit/byte transforms. non-trivial = the "
             "execution reached the judged point (input accepted or rejected by the library / deviation applied); distinct = (term, input, script)",
     "bounds": {"quick": {"L_T1": 4, "L_T2": 4, "L_T3": 3, "fault_deviations": 1}, "thorough": {"L_T1": 6, "L_T2": 5, "L_T3": 4, "L_T5": 3, "fault_deviations": 2}},
     "trusted_base": ["mc/streams.py ScriptedStream (environment model)", "rigidity classification in this module"],
@@ -64,10 +66,28 @@ def rigid(t, inside=False):
     return True
 
 
+SWALLOWS = ("Optional", "Select", "Peek", "GreedyRange", "Lazy", "LazyStruct", "LazyArray", "Union", "Pointer")
+
+
+def swallows(t):
+    """the term has a part that is documented to absorb an error of its child (alternatives, optional parts, greedy repetition,
+    look-ahead, deferred parsing, require=False regions).  Without such a part a stream operation that RAISES can only end in StreamError -
+    lenient readers (Terminated, GreedyBytes) tolerate a short answer, never a failed one."""
+    if not isinstance(t, list) or not t:
+        return False
+    if isinstance(t[0], str):
+        if t[0] in SWALLOWS:
+            return True
+        if t[0] == "NullTerminated" and not t[5]:
+            return True
+    return any(swallows(x) for x in t if isinstance(x, list))
+
+
 def terms_for(tier, strict=False):
     b = INFO["bounds"][tier]
     out = [(t, "T1", b["L_T1"]) for t in G.tier1()] + [(t, "T2", b["L_T2"]) for t in G.tier2(strict)] + [(t, "T3", b["L_T3"]) for t in G.tier3(strict)] \
         + [(t, "T4", b["L_T2"]) for t in G.tier4()] + [(t, "X", b["L_T2"]) for t in extra_terms() + G.discard_terms() + G.zero_size_terms()]
+    out += [(t, "TSt", b["L_T3"]) for t in G.streaming_terms(1 if tier == "quick" else 2)]
     if tier == "thorough":
         out += [(t, "T5", b["L_T5"]) for t in G.tier5(strict)]
     return out
@@ -308,6 +328,10 @@ def judge_fault(op, t, is_rigid, res, s, script, tsig, case):
                             "detail": "%s.%s_stream with stream deviation %s (trace %s) raised %s: %s" % (T.show(t), op, applied, s.trace[:12], res[1], res[2])}]
     if res[0] == "hang":
         return "hang", [{"sig": "C06/%s-fault-hang/%s" % (op, tsig), "case": case, "detail": "did not terminate under %s" % (applied,)}]
+    if op == "parse" and not is_rigid and res[0] == "ok" and all(dv == "raise" for _, _, dv in applied) and not swallows(t):
+        return "silent", [{"sig": "C06/parse-raising-stream-silently-accepted/%s/%s" % ("+".join(kinds), tsig), "case": case,
+                           "detail": "%s.parse_stream: the stream operation(s) %s raised (trace %s), yet parse returned %r; nothing in this format "
+                                     "absorbs errors" % (T.show(t), applied, s.trace[:12], res[1])}]
     if is_rigid or op == "build":
         if res[0] == "ok":
             return "silent", [{"sig": "C06/%s-fault-silently-accepted/%s/%s" % (op, "+".join(kinds), tsig), "case": case,
